@@ -44,7 +44,9 @@ def first_diff(a, b):
     return None
 
 
-def search(seeds=(0, 1, 2, 3, 7), norders=4):
+def search(seeds=None, norders=None):
+    seeds = seeds or ((0, 1, 2, 3, 7) if not realrun.thorough() else tuple(range(12)))
+    norders = norders or (4 if not realrun.thorough() else 8)
     files = project_files()
     with realrun.project_dir(files) as d:
         ref = run(d, seeds[0])
@@ -68,7 +70,7 @@ def search(seeds=(0, 1, 2, 3, 7), norders=4):
 
 
 def count_cases():
-    return 4 + 4
+    return (4 + 4) if not realrun.thorough() else (11 + 8)
 
 
 # ---- a second run into the output directory of the first: stale output must not change the result
@@ -115,7 +117,8 @@ def rerun_cases():
     return None
 
 
-def hashseed_pages(seeds=(0, 1, 2, 3, 4)):
+def hashseed_pages(seeds=None):
+    seeds = seeds or ((0, 1, 2, 3, 4) if not realrun.thorough() else tuple(range(10)))
     """the rendered pages of one project under several PYTHONHASHSEED values, byte for byte (fixed creation date; graphs off: their SVG ids come from graphviz)"""
     import shutil, tempfile
     from bounded import site
